@@ -39,20 +39,24 @@ const POOL: &[&[u8]] = &[
     b"Z #3001\"\n",
     // a common command in front of a query
     b"*R;B?\n",
+    // longer than the small buffers, with a string that closes well behind their end
+    b"A:S 'pqrstuvwxyz0123'\n",
 ];
 
 /// Lockstep expectation: (offset behind the terminator, number of handler calls) of every
 /// message of the stream, messages delimited by spec::lexscan and the calls taken from `run`
-/// on the message alone.  None if a message does not fit the buffer (it is discarded).
+/// on the message alone (none for a message that does not fit the buffer: it is discarded).
 fn lockstep(s: &[u8], n: usize) -> Option<Vec<(usize, usize)>> {
     let (msgs, _) = mc::spec::lexscan::split(s);
     let mut v = vec![];
     let mut off = 0;
     for m in msgs {
-        if m.len() > n {
-            return None;
-        }
         off += m.len();
+        if m.len() > n {
+            // an over-long message is discarded: it owes no handler call, the messages behind it do
+            v.push((off, 0));
+            continue;
+        }
         let (o, obs) = mc::mainx::run_obs(m, Pattern::NONE);
         if o.end != End::Returned {
             return None;
@@ -469,7 +473,7 @@ fn main() {
     out.assumptions = vec![
         "responses owed are derived from the observed handler log and the value table of the recording interface".into(),
         "a query unit counts as failed (nothing owed) when an error is reported for it".into(),
-        "lockstep: messages are delimited by spec::lexscan; the number of handler calls a message owes is taken from run on the message alone; only checked when every message fits N".into(),
+        "lockstep: messages are delimited by spec::lexscan; the number of handler calls a message owes is taken from run on the message alone; a message longer than N owes none".into(),
     ];
     out.wall_s = t0.elapsed().as_secs_f64();
     out.write(&args);
